@@ -22,7 +22,7 @@ ASSUMPTIONS = ['ground truth for generated nodes = generator spec; shipped nodes
                'client view = frappy.datatypes.get_datatype(described datainfo); payload verdicts in the tolerance band are not compared',
                'on shipped nodes change probes use only payloads the described datainfo rejects (never drives simulated hardware)',
                'parameters with limit parameters / check hooks may refuse more than the datainfo says (one-sided comparison)']
-REQUIRED = ['generated_nodes', 'shipped_nodes', 'described_params_checked', 'verdict_comparisons', 'emitted_values_checked',
+REQUIRED = ['generated_nodes', 'shipped_nodes', 'described_params_checked', 'verdict_comparisons', 'emitted_values_checked', 'garbage_assignments',
             'undescribed_probes', 'readonly_probes', 'constant_reads', 'structure_comparisons']
 
 N = {'quick': 12, 'thorough': 700}
@@ -396,6 +396,55 @@ class World:
                         return False
                     if st == 'ok' and not self.check_emitted(desc, mn, an, rep[2][0], 'changed', case):
                         return False
+        if generated is not None and not self.check_garbage_from_driver(node, desc, case, gt, disp, conn):
+            return False
+        return True
+
+    def check_garbage_from_driver(self, node, desc, case, gt, disp, conn):
+        """module code assigns a value its own datatype refuses (garbage from the hardware): whatever the node emits for the
+        parameter afterwards (read reply, updates of a new activation) is still importable with the described datainfo
+        or an error report"""
+        r, rng = self.r, self.rng
+        for (mn, an), p in gt.items():
+            ad = desc['modules'].get(mn, {}).get('accessibles', {}).get(an)
+            if ad is None or 'constant' in ad or rng.random() < 0.5:
+                continue
+            mod = node.secnode.modules[mn]
+            pobj = mod.parameters[p['name']]
+            di = strip(ad['datainfo'])
+            bad = None
+            for _ in range(6):
+                cand = gen_dt.mutate(di, gen_dt.gen_valid(di, rng), rng)
+                try:
+                    pobj.datatype(cand)
+                except Exception:
+                    bad = cand
+                    break
+            if bad is None:
+                continue
+            try:
+                setattr(mod, p['name'], bad)
+            except Exception:
+                pass          # refusing the assignment loudly is fine as well
+            r.count('garbage_assignments')
+            st, rep = self.ask(disp, conn, ('read', f'{mn}:{an}', None))
+            if st == 'ok' and not self.check_emitted(desc, mn, an, rep[2][0], 'read-after-garbage', dict(case, garbage=repr(bad)[:100])):
+                return False
+            if st == 'exc':
+                r.violation(f'C06/read-raises/after-garbage/{di.get("type")}', f'read {mn}:{an} after the driver assigned {bad!r}: {rep}'[:250], case)
+                return False
+        c2 = self.nodes.Conn('g')
+        disp.add_connection(c2)
+        st, rep = self.ask(disp, c2, ('activate', None, None))
+        if st != 'ok':
+            r.violation('C06/activate-fails/after-garbage', f'{st} {str(rep)[:200]}', case)
+            return False
+        for msg in c2.out:
+            if msg[0] == 'update':
+                mn, _, an = msg[1].partition(':')
+                if not self.check_emitted(desc, mn, an, msg[2][0], 'update-after-garbage', case):
+                    return False
+        disp.remove_connection(c2)
         return True
 
     @staticmethod
